@@ -410,6 +410,15 @@ func (ex *Exec) makeSlice(fr *Frame, instr *ssa.MakeSlice, ln, cp *Term) Value {
 	var n, c int
 	if !ln64.IsConst() && !ex.branch(mkCmp(OpSLe, ln64, mkConst(64, uint64(ex.cfg.MakeEnumLimit))), "make-small") {
 		// lengths above the enumeration limit: one representative (recorded cut)
+		// prefer the smallest such length when it is feasible
+		first := mkEq(ln64, mkConst(64, uint64(ex.cfg.MakeEnumLimit+1)))
+		if !ex.replaying() {
+			if r, _ := ex.solver.Check(first, false); r == Sat {
+				ex.addPC(first, nil)
+			}
+		} else if ex.prefix[ex.pos] == ex.cfg.MakeEnumLimit+1 {
+			ex.addPC(first, nil)
+		}
 		n = int(ex.pickOne(ln64, "make-len above enumeration limit: one representative length"))
 	} else {
 		n = int(ex.concretize(ln64, "make-len"))
@@ -506,9 +515,9 @@ func (ex *Exec) slice(fr *Frame, instr *ssa.Slice, x, lo, hi, max Value) Value {
 	if !ex.branch(ok, "slice-bounds") {
 		ex.throw(fr, instr.Pos(), fmt.Sprintf("slice bounds out of range [%s:%s:%s] with capacity %d", termString(l), termString(h), termString(m), limit))
 	}
-	li := int(ex.concretize(l, "slice-lo"))
-	hi2 := int(ex.concretize(h, "slice-hi"))
-	mi := int(ex.concretize(m, "slice-max"))
+	li := int(ex.concretizeOrPick(l, "slice-lo"))
+	hi2 := int(ex.concretizeOrPick(h, "slice-hi"))
+	mi := int(ex.concretizeOrPick(m, "slice-max"))
 	switch x := x.(type) {
 	case string:
 		return x[li:hi2]
@@ -570,4 +579,24 @@ func (ex *Exec) typeAssert(fr *Frame, instr *ssa.TypeAssert, itf Iface) Value {
 		return Tuple{v, tTrue}
 	}
 	return v
+}
+
+// concretizeOrPick enumerates small values of t and represents all larger ones
+// by a single witness (recorded cut), like allocation lengths.
+func (ex *Exec) concretizeOrPick(t *Term, where string) uint64 {
+	if t.IsConst() {
+		return t.val
+	}
+	if ex.branch(mkCmp(OpSLe, t, mkConst(64, uint64(ex.cfg.MakeEnumLimit))), where+"-small") {
+		return ex.concretize(t, where)
+	}
+	first := mkEq(t, mkConst(64, uint64(ex.cfg.MakeEnumLimit+1)))
+	if !ex.replaying() {
+		if r, _ := ex.solver.Check(first, false); r == Sat {
+			ex.addPC(first, nil)
+		}
+	} else if ex.prefix[ex.pos] == ex.cfg.MakeEnumLimit+1 {
+		ex.addPC(first, nil)
+	}
+	return ex.pickOne(t, where+" above enumeration limit: one representative value")
 }
